@@ -60,3 +60,19 @@ def preload():
     from sim import repo
     repo.mod('src.mesh')
     repo.mod('src.parametrization')
+
+
+def small_config_coverage(cov, depth=3):
+    """How many of the states reachable within `depth` bisections of the
+    smallest initial meshes (counted in the model alone) the sampled runs of
+    this batch visited."""
+    out = {}
+    visited = cov.s.get('mesh_states', set())
+    for (n_t, n_x, glued) in ((1, 1, False), (1, 1, True), (1, 2, True),
+                              (2, 1, False)):
+        reach = meshsim.reachable_states(n_t, n_x, glued, depth)
+        out['{}x{}{}'.format(n_t, n_x, '-glued' if glued else '-open')] = {
+            'reachable_within_depth_{}'.format(depth): len(reach),
+            'visited_by_this_batch': len(reach & visited)
+        }
+    return out
